@@ -127,7 +127,7 @@ impl Property for C11 {
         "case = one shared Gauge or IntGauge (standalone - one handle shared by reference, or two handles - or a GaugeVec/IntGaugeVec child), 2-3 threads x 1-5 operations from \
          set/inc/dec/add/sub/get/Collector::collect with small integer or dyadic arguments (25% of programs: also negative, 2^40, \
          1e300, f64::MAX, +Inf, integers up to 2^59 - IEEE resp. exact integer arithmetic in the model; 7% of programs: the gauge starts at \
-         -0.0 and arguments are +-0.0 / 1 / 0.5; 10% of float programs: the gauge starts at NaN, +Inf or -Inf and arguments are NaN / +-Inf / 5 / 1 / 0.5, all NaNs being one value; 8% of float programs: amounts of 5e-324 / 1e-310 / 2^-1022 and their negatives; 12% of integer programs: the gauge starts at -7 / -1000 / -2^62, sets write negative values, arguments include i64::MIN and -2^62, and programs in which some order of the calls could overflow are discarded), and a schedule (random walk, PCT with 1-3 priority change points, or a window that pauses one thread before its \
+         -0.0 and arguments are +-0.0 / 1 / 0.5; 10% of float programs: the gauge starts at NaN, +Inf or -Inf and arguments are NaN / +-Inf / 5 / 1 / 0.5, all NaNs being one value; 8% of float programs: amounts of 5e-324 / 1e-310 / 2^-1022 and their negatives; 8%: values one ulp apart (1.5 and its neighbours, 0.3 and 0.1 + 0.2); 12% of integer programs: the gauge starts at -7 / -1000 / -2^62, sets write negative values, arguments include i64::MIN and -2^62, and programs in which some order of the calls could overflow are discarded), and a schedule (random walk, PCT with 1-3 priority change points, or a window that pauses one thread before its \
          k-th atomic step while another completes whole operations) with up to 3 injected spurious compare-exchange failures; the \
          real library code runs one atomic step at a time in that order. Oracle: exhaustive linearizability search against the \
          sequential gauge model; on set-free programs the final value equals the signed sum. Non-trivial: a thread was pre-empted \
@@ -200,6 +200,9 @@ impl Property for C11 {
         // negatives): the linearizability search applies the same IEEE arithmetic in every candidate order (the signed-sum shortcut is skipped: inc/dec
         // mix 1.0 in, which absorbs the tiny amounts in an order-dependent way)
         let tiny = float && !wide && !zero_sign && !nonfinite && src.chance(20);
+        // 8% of float programs use values one unit in the last place apart (1.5 and its two neighbours, 0.3 and 0.1 + 0.2): "the same
+        // value" for an approximate comparison, different values for the gauge
+        let adjacent = float && !wide && !zero_sign && !nonfinite && !tiny && src.chance(20);
         let mut start = 0f64;
         if nonfinite {
             start = [f64::NAN, f64::INFINITY, f64::NEG_INFINITY][src.below(3)];
@@ -241,6 +244,9 @@ impl Property for C11 {
                 }
                 if tiny {
                     v = [f64::from_bits(1), -f64::from_bits(1), 1e-310, f64::MIN_POSITIVE, -1e-310, f64::from_bits(3)][src.below(6)];
+                }
+                if adjacent {
+                    v = [1.5, f64::from_bits(1.5f64.to_bits() + 1), f64::from_bits(1.5f64.to_bits() - 1), 0.3, 0.1 + 0.2, 1.0][src.below(6)];
                 }
                 if extreme {
                     v = [1.0, -3.0, 7.0, -500.0, i64::MIN as f64, -4611686018427387904.0][src.below(6)];
@@ -347,7 +353,7 @@ impl Property for C11 {
             return fail("not-linearizable", describe());
         }
         let set_free = prog.iter().all(|p| p.iter().all(|o| !matches!(o, GOp::Set(_))));
-        if set_free && !wide && !nonfinite && !extreme && !tiny {
+        if set_free && !wide && !nonfinite && !extreme && !tiny && !adjacent {
             let mut sum = 0.0;
             for p in &prog {
                 for o in p {
@@ -385,6 +391,9 @@ impl Property for C11 {
         }
         if tiny {
             rep.class("subnormal-amounts");
+        }
+        if adjacent {
+            rep.class("values-one-ulp-apart");
         }
         if extreme {
             rep.class("integer-range-edge(negative gauge, i64::MIN arguments, no order overflows)");
